@@ -350,3 +350,26 @@ func VfC16_AfterEdit() {
 	vfAssert("C16.after-edit.differs-from-old-structure", vfAnd(vfNot(Equal(subject, old)), vfNot(Equal(old, subject))))
 	vfAssert("C16.after-edit.agrees-with-llvm-identity", vfAnd(Equal(subject, fresh) == hRef(subject, fresh), Equal(subject, old) == hRef(subject, old)))
 }
+
+// VfC16_SharedBacking: struct field lists and function parameter lists that
+// share a backing array (NewStruct / NewFunc keep the caller's slice, so a
+// prefix sub-slice of one list can be the list of another type): types of
+// different length are different, whatever their slices alias.
+//
+//vf:unwind 100
+func VfC16_SharedBacking() {
+	w := uint64(vfByte("w"))
+	vfAssume(vfAnd(w >= 1, w <= 64))
+	it := NewInt(w)
+	fields := []Type{it, I8Ptr, Double}
+	k := vfChoice("prefix", 3) // shorter list: fields[:k], k = 0..2
+	short, long := NewStruct(fields[:k]...), NewStruct(fields...)
+	vfReach("C16.shared-backing")
+	vfAssert("C16.shared.struct-lengths-differ", vfAnd(vfNot(short.Equal(long)), vfNot(long.Equal(short))))
+	fresh := NewStruct(append([]Type(nil), fields[:k]...)...)
+	vfAssert("C16.shared.struct-equals-fresh-copy", vfAnd(short.Equal(fresh), fresh.Equal(short)))
+	fs, fl := NewFunc(Void, fields[:k]...), NewFunc(Void, fields...)
+	vfAssert("C16.shared.func-lengths-differ", vfAnd(vfNot(fs.Equal(fl)), vfNot(fl.Equal(fs))))
+	// the same through an enclosing pointer (which compares printed strings)
+	vfAssert("C16.shared.pointer-to-struct-lengths-differ", vfNot(NewPointer(short).Equal(NewPointer(long))))
+}
